@@ -103,7 +103,8 @@ var generalAssumptions = []string{
 	"Go int is a mathematical integer; every int + - * gets an overflow obligation (safety/…/overflow) in the functions under a safety contract",
 	"len <= cap < 2^48 for every string and slice; memory exhaustion and GC are not modelled",
 	"bodies of functions outside /repo are replaced by the assumed contracts of /verif/contracts/stdlib.contracts (or havocked when there is none)",
-	"the SSA form produced by golang.org/x/tools/go/ssa v0.29.0 and the SMT solvers are trusted: an unsat from z3 5.1.0 or cvc5 1.0 discharges an obligation, an unsat from z3 4.8.12 only together with one of them (it was seen to answer unsat on a satisfiable query, see docs/)",
+	"the SSA form produced by golang.org/x/tools/go/ssa v0.29.0 and the SMT solvers are trusted: an unsat from z3 5.1.0 or cvc5 1.0 discharges an obligation, an unsat from z3 4.8.12 only together with one of them (a conservative rule kept from an episode that turned out to be an inconsistency of this generator's own prelude, see DESIGN.md)",
+	"the background theory of every query (string values, concatenation, extensionality; govc/world.go) is consistent: argued from its intended model, not machine-checked; cover/prelude/pre is a smoke test only",
 	"interface type assertions to repo interfaces succeed for every non-nil value (only implementing types are boxed)",
 }
 
